@@ -4,6 +4,7 @@ import (
 	"bytes"
 	"context"
 	"fmt"
+	"io"
 	"net/http"
 	"strings"
 
@@ -284,6 +285,11 @@ func runC13(x *Ctx) {
 			return
 		}
 		r.readTok = fmt.Sprintf("%s/%d/%d", ent.Tok, ent.N, len(ent.Pad))
+		if req.Request.Header.Get("Content-Encoding") == "deflate" {
+			// drain what is left of the body, as handlers do before answering (keep-alive); for a deflate
+			// body this reads through the request's own zlib reader once more
+			io.Copy(io.Discard, req.Request.Body)
+		}
 		resp.Write([]byte("tok=" + r.readTok))
 	}))
 	c.Add(ws)
